@@ -27,7 +27,12 @@ ObsInit == /\ l \in 1..N
            /\ out = O(Rec[l])
 ObsNext == UNCHANGED <<l, vars>>
 
-Family(v) == IF v.tls /\ v.ver = "2" /\ v.auth = "none" /\ v.hosthdr # "none" THEN "h2-host-fallback"
+\* records of the chain binding (real TLS handshake -> info channel -> TlsConnectionInfoLayer -> ValidateSNI) carry the
+\* ground truth tls = TRUE in v, whatever the middleware got to see; their family says whether a suspended request
+\* future of the same connection had been cancelled before
+IsChain == Rec[l].c.mode = "chain"
+Family(v) == IF IsChain THEN "chain-" \o Rec[l].c.scn_class
+             ELSE IF v.tls /\ v.ver = "2" /\ v.auth = "none" /\ v.hosthdr # "none" THEN "h2-host-fallback"
              ELSE IF Subject(v) /\ Match(v) /\ Bytes(NamedHost(v)) # Bytes(v.sni) THEN "letter-case"
              ELSE "other"
 Key(v, o) == [family |-> Family(v), clause |-> FailedClause(v, o), class |-> Class(v)]
@@ -36,14 +41,16 @@ Key(v, o) == [family |-> Family(v), clause |-> FailedClause(v, o), class |-> Cla
 WellFormed == /\ vec \in Vectors
               /\ out.validated \in BOOLEAN
               /\ out.kind \in {"forwarded", "rejected", "panicked", "pending", "answered_without_inner",
-                               "rejected_after_inner", "inner_error"}
+                               "rejected_after_inner", "inner_error", "dropped"}
 
 \* THE PROPERTY (same formula as on the model), with a report line per violating record
-ObsC20 == InvC20 \/ ~PrintT(<<"BAD", ToJson([i |-> l, key |-> Key(vec, out)])>>)
+\* (a request future the client cancelled has no outcome: nothing to judge)
+ObsC20 == out.kind = "dropped" \/ InvC20 \/ ~PrintT(<<"BAD", ToJson([i |-> l, key |-> Key(vec, out)])>>)
 
 \* conformance (DRIFT only): always true, prints where the real outcome is not the modelled one
-ObsDrift == /\ (out = Intended(vec) \/ PrintT(<<"DIFFI", ToJson([i |-> l])>>))
-            /\ (out = AsBuilt(vec)  \/ PrintT(<<"DIFFA", ToJson([i |-> l])>>))
+ObsDrift == /\ (~IsChain \/ Rec[l].c.conforms \/ PrintT(<<"DIFFC", ToJson([i |-> l])>>))
+            /\ (out.kind = "dropped" \/ out = Intended(vec) \/ PrintT(<<"DIFFI", ToJson([i |-> l])>>))
+            /\ (out.kind = "dropped" \/ out = AsBuilt(vec)  \/ PrintT(<<"DIFFA", ToJson([i |-> l])>>))
 
 Consumed == PrintT(<<"CONSUMED", TLCGet("stats").distinct, N>>) /\ TLCGet("stats").distinct = N
 =============================================================================
